@@ -679,6 +679,216 @@ def matrix_cells():
     return cells
 
 
+
+# ------------------------------------------------------------------------------------ (2b) generated mutation
+GM_TRAVS = ('flatten', 'with_path', 'with_accessor', 'iter', 'iter-between', 'leaves', 'structure', 'paths', 'accessors', 'one_level', 'all_leaves', 'map', 'map_rest', 'map_rest_rev', 'map_inplace',
+            'transpose_map', 'flatten_up_to', 'broadcast_common', 'broadcast_common_rev', 'broadcast_prefix', 'broadcast_map', 'prefix_errors', 'reduce', 'is_leaf')
+GM_MUTS = ('del-first', 'del-last', 'clear', 'grow', 'replace', 'reorder', 'shrink-to-1', 'nest')
+_GM_MUTABLE = (list, dict, OrderedDict, defaultdict, deque)
+
+
+def _gm_mutate(target, mutation, rng):  # noqa: C901
+    """One in-place mutation of a python container (a list, deque or dict kind) somewhere in the tree."""
+    if isinstance(target, dict):
+        ks = list(target)
+        if mutation == 'del-first' and ks:
+            del target[ks[0]]
+        elif mutation == 'del-last' and ks:
+            del target[ks[-1]]
+        elif mutation == 'clear':
+            target.clear()
+        elif mutation == 'grow':
+            for j in range(rng.choice((1, 3, 40, 300))):
+                target[('grown', j)] = U.Leaf(('g', j))
+        elif mutation == 'replace':
+            for k_ in ks:
+                target[k_] = U.Leaf(('r', 0))
+        elif mutation == 'reorder' and ks:
+            v = target.pop(ks[0])
+            target[ks[0]] = v
+        elif mutation == 'shrink-to-1':
+            for k_ in ks[1:]:
+                del target[k_]
+        elif mutation == 'nest':
+            for k_ in ks[:2]:
+                target[k_] = [target[k_], {('n', 1): U.Leaf('n')}]
+    else:
+        n = len(target)
+        if mutation == 'del-first' and n:
+            del target[0]
+        elif mutation == 'del-last' and n:
+            del target[n - 1]
+        elif mutation == 'clear':
+            target.clear()
+        elif mutation == 'grow':
+            try:
+                target.extend(U.Leaf(('g', j)) for j in range(rng.choice((1, 3, 40, 300))))
+            except Exception:  # noqa: BLE001
+                pass
+        elif mutation == 'replace':
+            for j in range(n):
+                target[j] = U.Leaf(('r', j))
+        elif mutation == 'reorder' and n:
+            if isinstance(target, deque):
+                target.rotate(1)
+            else:
+                target.reverse()
+        elif mutation == 'shrink-to-1':
+            while len(target) > 1:
+                del target[len(target) - 1]
+        elif mutation == 'nest':
+            for j in range(min(n, 2)):
+                target[j] = [target[j], (U.Leaf('n'),)]
+
+
+def gen_mutation(sink, seed, idx):  # noqa: C901
+    """A generated tree (container histories, every node kind of the universe, drawn options); the k-th callback the traversal reaches (predicate,
+    custom flatten / unflatten) mutates ONE container anywhere in the tree - an ancestor being walked, the node itself, a sibling not yet
+    reached, one already left - then collects garbage. Any exception is fine; a result must be consistent with itself."""
+    from vf import same
+
+    cs = harness.make_case('c16gm', seed, idx, size_budget=16)
+    rng = cs.rng
+    preds = [p_ for p_ in gen.PREDICATES if p_ != 'none']
+    opt = gen.rand_opt(rng, preds=preds)
+    trav = GM_TRAVS[rng.randrange(len(GM_TRAVS))]
+    mutation = GM_MUTS[rng.randrange(len(GM_MUTS))]
+    tree = cs.tree
+    twin, _ = gen.materialize(cs.desc, random.Random(f'{seed}:c16gm-twin:{idx}'))
+    kw = opt.kw()
+    ident = dict(cs.ident(), part='generated-mutation', traversal=trav, mutation=mutation, opt=repr(opt))
+    subs = same.subobjects(tree, limit=300)
+    targets = [x for x in subs if type(x) in _GM_MUTABLE] + [x.kids for x in subs if isinstance(x, U.CBase) and type(x.kids) is list]
+    if not targets:
+        sink.count('generated-mutation/no-mutable-container')
+        return
+    target = targets[rng.randrange(len(targets))]
+    state = dict(n=0, at=None, fired=0)
+
+    def hook(site, obj):
+        state['n'] += 1
+        if state['at'] is not None and state['n'] == state['at'] and not state['fired']:
+            state['fired'] = 1
+            _gm_mutate(target, mutation, rng)
+            gc.collect()
+
+    def flat_ok(leaves, spec):
+        if len(leaves) != spec.num_leaves:
+            return f'len(leaves)={len(leaves)} != num_leaves={spec.num_leaves}'
+        try:
+            spec.unflatten(leaves)
+            repr(spec), hash(spec)
+            if len(spec.paths()) != spec.num_leaves or len(spec.accessors()) != spec.num_leaves:
+                return 'paths / accessors of the treespec disagree with num_leaves'
+        except Exception:  # noqa: BLE001
+            pass
+        return None
+
+    f1 = lambda x, *r: x  # noqa: E731
+
+    def go():  # noqa: C901
+        if trav == 'flatten':
+            return flat_ok(*optree.tree_flatten(tree, **kw))
+        if trav == 'with_path':
+            ps, lv, sp = optree.tree_flatten_with_path(tree, **kw)
+            return flat_ok(lv, sp) or (None if len(ps) == len(lv) else 'paths / leaves length mismatch')
+        if trav == 'with_accessor':
+            ac, lv, sp = optree.tree_flatten_with_accessor(tree, **kw)
+            return flat_ok(lv, sp) or (None if len(ac) == len(lv) else 'accessors / leaves length mismatch')
+        if trav == 'iter':
+            list(optree.tree_iter(tree, **kw))
+        elif trav == 'iter-between':
+            # the mutation happens BETWEEN two steps of the lazy iterator (user code runs there as well), at step `at`
+            it = optree.tree_iter(tree, **kw)
+            j = 0
+            for _ in it:
+                j += 1
+                if state['at'] is not None and j == state['at'] and not state['fired']:
+                    state['fired'] = 1
+                    _gm_mutate(target, mutation, rng)
+                    gc.collect()
+            state['n'] = max(state['n'], j)
+        elif trav == 'leaves':
+            optree.tree_leaves(tree, **kw)
+        elif trav == 'structure':
+            sp = optree.tree_structure(tree, **kw)
+            return flat_ok([0] * sp.num_leaves, sp)
+        elif trav == 'paths':
+            optree.tree_paths(tree, **kw)
+        elif trav == 'accessors':
+            optree.tree_accessors(tree, **kw)
+        elif trav == 'one_level':
+            optree.tree_flatten_one_level(tree, is_leaf=kw['is_leaf'], none_is_leaf=kw['none_is_leaf'], namespace=kw['namespace'])
+        elif trav == 'all_leaves':
+            optree.all_leaves(target if rng.random() < 0.5 else [tree, tree], **kw)
+        elif trav == 'is_leaf':
+            optree.tree_is_leaf(tree, **kw)
+        elif trav == 'map':
+            optree.tree_map(f1, tree, **kw)
+        elif trav == 'map_rest':
+            optree.tree_map(f1, twin, tree, **kw)
+        elif trav == 'map_rest_rev':
+            optree.tree_map(f1, tree, twin, tree, **kw)
+        elif trav == 'map_inplace':
+            optree.tree_map_(f1, tree, tree, **kw)
+        elif trav == 'transpose_map':
+            optree.tree_transpose_map(lambda x: (x, x), tree, **kw)
+        elif trav == 'flatten_up_to':
+            out = twin_spec.flatten_up_to(tree)
+            return None if len(out) == twin_spec.num_leaves else 'flatten_up_to length'
+        elif trav == 'broadcast_common':
+            a, b = optree.broadcast_common(tree, twin, **kw)
+            return None if len(a) == len(b) else 'broadcast_common lengths differ'
+        elif trav == 'broadcast_common_rev':
+            a, b = optree.broadcast_common(twin, tree, **kw)
+            return None if len(a) == len(b) else 'broadcast_common lengths differ'
+        elif trav == 'broadcast_prefix':
+            optree.tree_broadcast_prefix(twin, tree, **kw)
+        elif trav == 'broadcast_map':
+            optree.tree_broadcast_map(f1, tree, twin, **kw)
+        elif trav == 'prefix_errors':
+            optree.prefix_errors(twin, tree, **kw)
+        elif trav == 'reduce':
+            optree.tree_reduce(lambda a, b: a, tree, None, **kw)
+        else:
+            raise AssertionError(trav)
+        return None
+
+    with opt.ctx():
+        twin_spec = optree.tree_structure(twin, **kw)
+        # counting run: how many callbacks does this traversal reach on the pristine tree?
+        old = U.HOOK[0]
+        U.HOOK[0] = hook
+        try:
+            try:
+                go()
+            except Exception:  # noqa: BLE001
+                sink.count('generated-mutation/pristine-run-raises')
+            K = state['n']
+            if K == 0:
+                sink.count('generated-mutation/no-callback-reached')
+                return
+            state.update(n=0, at=rng.randint(1, K))
+            try:
+                problem = go()
+                out = 'ok'
+            except Exception as e:  # noqa: BLE001
+                out = type(e).__name__
+                problem = None
+                if out in ('SystemError', 'InternalError'):
+                    sink.count(f'observed-internal-error:generated-mutation/{trav}')
+        finally:
+            U.HOOK[0] = old
+    kind = type(target).__name__ if not any(target is getattr(x, 'kids', None) for x in subs if isinstance(x, U.CBase)) else 'custom-kids'
+    sink.check(problem is None, f'generated-mutation/inconsistent/{trav}/{kind}/{mutation}', 'a container mutated during traversal leads to a python exception or a consistent result', ident, problem)
+    sink.count(f'generated-mutation-outcome:{out}')
+    sink.count('generated-mutation-calls')
+    if state['fired']:
+        sink.count('generated-mutation-fired')
+    sink.cell('generated-mutation', trav, kind, mutation)
+    sink.case(harness.fp('genmut', seed, idx), bool(state['fired']), dict(ident, outcome=out, k=state['at'], K=K, target=kind) if state['fired'] and idx < 3 else None)
+
+
 # ------------------------------------------------------------------------------------ (3) type confusion
 class RaisingIter:
     def __iter__(self):
@@ -887,6 +1097,9 @@ def journal_cases(shard):
     mcells = mismatch_cells()
     for a in range(0, len(mcells), 60):
         cases.append(dict(part='mismatch', start=a, stop=min(len(mcells), a + 60)))
+    n_gm = harness.scale(3000, 120000, tier)
+    for a in range(0, n_gm, 250):
+        cases.append(dict(part='genmut', start=a, count=min(250, n_gm - a), seed=seed))
     n_conf = harness.scale(2400, 200000, tier)
     for a in range(0, n_conf, 300):
         cases.append(dict(part='confusion', start=a, count=min(300, n_conf - a), seed=seed))
@@ -922,6 +1135,10 @@ def journal_run(sink, case, sub_start, progress):
             run_mismatch(sink, *mcells[j])
     elif part == 'confusion':
         confusion(sink, case['seed'], case['start'] + sub_start, case['count'] - sub_start, lambda i: progress(i - case['start']))
+    elif part == 'genmut':
+        for j in range(case['start'] + sub_start, case['start'] + case['count']):
+            progress(j - case['start'])
+            gen_mutation(sink, case['seed'], j)
 
 
 STALL_S = 40  # journal silence after which a worker is sampled (gdb + CPU time) and restarted
@@ -971,6 +1188,9 @@ def run_shard(sink, tier, seed, shard):  # noqa: C901
                     mech = f'mismatch/{kind_}/{mc[2]}'
                 elif case.get('part') == 'confusion':
                     where = dict(case, index=case['start'] + (d['sub'] or 0))
+                elif case.get('part') == 'genmut':
+                    where = dict(case, index=case['start'] + (d['sub'] or 0), replay_with='vf.props.c16.gen_mutation(sink, seed, index)')
+                    mech = 'generated-mutation'
                 elif case.get('part') == 'depth':
                     mech = f'depth/{case.get("kind")}'
                 elif case.get('part') == 'stale':
@@ -1088,5 +1308,6 @@ def finalize(sink, tier, seed):
     sink.require('cyclic-probes')
     sink.require('mutation-callback-fired', 200)
     sink.require('confusion-calls', 1000)
+    sink.require('generated-mutation-fired', 500)
     sink.require('mismatch-calls', 500)
     sink.require('variant:asan')
